@@ -366,7 +366,9 @@ func toSMTPErr(err error) *smtp.SMTPError {
 	if smtpErr, ok := err.(*smtp.SMTPError); ok {
 		log.Printf("plain SMTP error returned, this is deprecated")
 		res.Code = smtpErr.Code
-		res.EnhancedCode = smtpErr.EnhancedCode
+		if smtpErr.EnhancedCode != smtp.EnhancedCodeNotSet {
+			res.EnhancedCode = smtpErr.EnhancedCode
+		}
 		res.Message = smtpErr.Message
 	}
 
